@@ -146,6 +146,41 @@ def run(tier):
                 acts.append({"n": "Eval", "mode": "handler", "presrc": "env", "filetext": [], "envstr": T(key + " " + chr(a["sep"]).join(vals)), "files": [],
                              "prog": T("prog"), "argv": [], "cmd": [], "tag": {"k": "raw"}})
         blocks.append((cfg, acts))
+    # program names around the usual buffer sizes (NAME_MAX, PATH_MAX, 64 KiB), with the argument-file and environment
+    # sources switched on (the program name is copied / turned into a file and a variable name), plain and with a path
+    g3 = Gen(SEED * 7 + 444)
+    for _ in range(2 if tier == "quick" else 20):
+        cfg = g3.cfg(nargs=g3.r.randint(1, 3), kinds=["flag", "int", "str"], constraints=False, allow_pos=False)
+        acts = []
+        for n in (254, 255, 256, 257, 1023, 1024, 1025, 4094, 4095, 4096, 4097, 5000, 8192, 65535, 65536, 70000):
+            for presrc in ("file", "env", "both"):
+                name = "".join(g3.r.choice("abcXYZ019_") for _ in range(n))
+                if g3.r.random() < 0.4:
+                    cut = g3.r.randint(0, n - 1)
+                    name = name[:cut] + "/" + name[cut + 1:]
+                line = gen_valid(g3, cfg)
+                acts.append({"n": "Eval", "mode": "handler", "presrc": presrc, "filetext": T("-x\n"), "envstr": T("--yy 1"), "files": [], "prog": T(name),
+                             "argv": to_words(g3.spell_line(cfg, line) if line else []), "cmd": [], "tag": {"k": "raw"}})
+        blocks.append((cfg, acts))
+    # bit positions at the edge of the unsigned range for the growing bit sets (vector<bool>, DynamicBitset): SIZE_MAX, the
+    # values from which "position + half of it + 1" wraps around, 2^63.  (Positions between 2^35 and 6 * 10^18 stay out: they
+    # make the address sanitizer's allocator abort instead of throwing std::bad_alloc.)
+    huge = ["18446744073709551615", "18446744073709551614", "12297829382473034410", "12297829382473034411", "12297829382473034412",
+            "12297829382473034500", "12297829382474000000", "9223372036854775808", "9223372036854775807", "6148914691236517206", "-1", "-2",
+            "-6148914691236517205"]
+    for _ in range(3 if tier == "quick" else 60):
+        cfg = g3.cfg(nargs=g3.r.randint(1, 3), kinds=["vecbool", "dynbits", "vecbool", "dynbits", "flag"], constraints=False, allow_pos=False)
+        acts = []
+        for a in cfg["args"]:
+            if a["kind"] not in arggen.GROWBITS:
+                continue
+            a["checks"] = []; a["card"] = {"t": "none", "a": 0, "b": 0}
+            key = ("-" + chr(a["s"])) if a["s"] else "--" + S(a["l"])
+            for h in huge:
+                for vals in ([h], ["3", h], [h, "5"]):
+                    acts.append({"n": "Eval", "mode": "handler", "presrc": "none", "filetext": [], "envstr": [], "files": [],
+                                 "argv": to_words([key, chr(a["sep"]).join(vals)]), "cmd": [], "tag": {"k": "raw"}})
+        blocks.append((cfg, acts))
     script2 = os.path.join(c.wd, "random.ndjson")
     write_cases(script2, blocks)
     run_script(c, exe, script2, "T", timeout=1200)
